@@ -275,6 +275,21 @@ def histories(draw, min_len=2, max_len=8, templates=True, allow_unmentioned=True
     """A list of option dictionaries built from neighbour edits, exact repeats and fresh draws."""
     n = draw(st.integers(min_len, max_len))
     hist = [draw(option_dicts(templates=templates, p_present=p_present))]
+    if focus is not None:
+        # keys referenced (transitively) by templated values of the base dictionary matter as much as mentioned keys
+        import re
+        focus = list(focus)
+        todo = [hist[0]]
+        while todo:
+            v = todo.pop()
+            if isinstance(v, dict):
+                todo.extend(v.values())
+            elif isinstance(v, list):
+                todo.extend(v)
+            elif isinstance(v, str):
+                for r in re.findall(r"(?<!\\)\{([^\\:{}]+)\}", v):
+                    if r not in focus:
+                        focus.append(r)
     kinds = []
     while len(hist) < n:
         how = draw(st.sampled_from(["edit", "edit", "edit", "edit", "edit2", "edit2", "repeat", "repeat", "fresh"]))
